@@ -142,6 +142,10 @@ def corpus():
                                       + bytes([255]))
   frames["dhcp_raw_overload"] = dhcp_frame(bytes([53, 1, 2, 52, 1, 3, 255]), overload=True)
   frames["dhcp_raw_no_end"] = dhcp_frame(bytes([53, 1, 1, 0, 0]))
+  # RFC 3396 long option: the same code in several instances whose data is concatenated - 256 bytes and more in all, so that
+  # re-serialisation has to split it again (added 2026-09-25 after seeded change C15_8 lost the split for parsed options)
+  frames["dhcp_raw_long_option"] = dhcp_frame(bytes([53, 1, 5, 43, 200]) + bytes(range(200)) + bytes([43, 56]) + bytes(range(56))
+                                              + bytes([43, 3, 7, 8, 9, 255]))
   # frames for header shapes the builders above do not produce (added 2026-09-25 after a review of raising paths that the
   # corpus could not reach: extension headers, EAP bodies, GRE routing entries, IGMPv3 sources)
   mac = bytes.fromhex("0102030405060a0b0c0d0e0f")
